@@ -11,16 +11,17 @@
 (* instead of stopping TLC, so that one run reports every violation of the  *)
 (* trace and no multi-megabyte error trace is printed.                      *)
 (***************************************************************************)
-EXTENDS Props, TLC, Json, IOUtils
+EXTENDS Props, SeqSem, TLC, Json, IOUtils
 
 Rec == ndJsonDeserialize(IOEnv.TRACE)
 
-VARIABLES l, pre, st
-vars == <<l, pre, st>>
+VARIABLES l, pre, st, aux
+vars == <<l, pre, st, aux>>
 
 Blank == InitState(<<>>, {}, "A")
 
-Init == l = 1 /\ pre = Blank /\ st = Blank
+NoAux == [infrag |-> FALSE, seq |-> <<>>, stuck |-> FALSE, joinfree |-> FALSE]
+Init == l = 1 /\ pre = Blank /\ st = Blank /\ aux = NoAux
 
 ResIds(e) == {e.res[i].id : i \in 1..Len(e.res)}
 
@@ -36,6 +37,9 @@ EvReset ==
     /\ e.k = "reset"
     /\ st' = InitState(e.script, SeqToSet(e.peers), e.init)
     /\ pre' = st'
+    /\ aux' = IF InFragment(e.script, FALSE)
+              THEN LET r == SeqRun(e.script, e.init) IN [infrag |-> TRUE, seq |-> r.calls, stuck |-> r.stuck, joinfree |-> e.joinfree]
+              ELSE [NoAux EXCEPT !.joinfree = e.joinfree]
 
 EvRun ==
     LET e == Rec[l] IN
@@ -43,8 +47,9 @@ EvRun ==
     /\ Consistent(st, e)
     /\ pre' = st
     /\ st' = RunStep(st, e.peer, e.cur, ResIds(e), e.out)
+    /\ aux' = aux
 
-EvObs == Rec[l].k = "obs" /\ UNCHANGED <<pre, st>>
+EvObs == Rec[l].k = "obs" /\ UNCHANGED <<pre, st, aux>>
 
 Next == l <= Len(Rec) /\ l' = l + 1 /\ (EvReset \/ EvRun \/ EvObs)
 
@@ -66,6 +71,41 @@ InvC07 == IsRun => Report("C07", C07(pre, Last))
 InvC08 == IsObs => Report("C08", C08(Last))
 InvC09 == IsRun => Report("C09", C09(pre, Last))
 InvC10 == (IsRun => Report("C10", C10(pre, Last))) /\ (IsObs => Report("C10", C10obs(Last)))
+\* C16 / C17 / C19a: every request a host received is one the sequential reading makes (as bags, per peer),
+\* with the same peer, service, function, argument values (C16) and tetraplets (C17)
+BagOfSeq(q, key(_)) == LET ks == {key(q[i]) : i \in 1..Len(q)} IN [k \in ks |-> Cardinality({i \in 1..Len(q) : key(q[i]) = k})]
+IssuedKeys(p, withTets) ==
+    LET q == IF withTets THEN Last.out.reqs ELSE st.issued[p] IN
+    IF withTets THEN BagOfSeq(q, LAMBDA r : <<p, r.srv, r.fn, r.args, r.tets>>)
+    ELSE BagOfSeq(q, LAMBDA r : <<p, r.srv, r.fn, r.args>>)
+SeqKeys(withTets) ==
+    IF withTets THEN BagOfSeq(aux.seq, LAMBDA c : <<c.p, c.srv, c.fn, c.args, c.tets>>)
+    ELSE BagOfSeq(aux.seq, LAMBDA c : <<c.p, c.srv, c.fn, c.args>>)
+InvC16 == (IsRun /\ aux.infrag /\ ~aux.stuck) => Report("C16", BagSubset(IssuedKeys(Last.peer, FALSE), SeqKeys(FALSE)))
+\* C17: each request of this run carries the tetraplets the sequential reading predicts (a request is
+\* compared with the sequential calls of the same peer, service, function and arguments).
+\* Known finding "functor-length": for an argument `x.length` the implementation hands out ("", "", "", ".length"),
+\* dropping the producer of x (pinned upstream by the test functor_dont_influence_tetraplet).
+FunctorTetraplet == <<[p |-> "", s |-> "", f |-> "", lens |-> ".length"]>>
+IsLengthLens(s) == Len(s) >= 7 /\ SubSeq(s, Len(s) - 6, Len(s)) = ".length"
+ArgTetsAgree(impl, orac, relaxed) ==
+    /\ Len(impl) = Len(orac)
+    /\ \A j \in 1..Len(impl) :
+          \/ impl[j] = orac[j]
+          \/ (relaxed /\ impl[j] = FunctorTetraplet /\ Len(orac[j]) = 1 /\ IsLengthLens(orac[j][1].lens))
+ReqTetsOk(r, relaxed) ==
+    LET cands == {j \in 1..Len(aux.seq) : SeqCallKey(aux.seq[j]) = <<Last.peer, r.srv, r.fn, r.args>>} IN
+    cands = {} \/ \E j \in cands : ArgTetsAgree(r.tets, aux.seq[j].tets, relaxed)
+InvC17 == (IsRun /\ aux.infrag /\ ~aux.stuck) =>
+    LET strict == \A i \in 1..Len(Last.out.reqs) : ReqTetsOk(Last.out.reqs[i], FALSE)
+        relaxed == \A i \in 1..Len(Last.out.reqs) : ReqTetsOk(Last.out.reqs[i], TRUE)
+    IN IF strict THEN TRUE
+       ELSE IF relaxed THEN PrintT(<<"VIOLATION", "C17", Last.hid, Last.step, "functor-length">>)
+       ELSE PrintT(<<"VIOLATION", "C17", Last.hid, Last.step>>)
+
+\* fragment statistics for the evidence (vacuity)
+InvAux == (l > 1 /\ Last.k = "reset") => PrintT(<<"AUX", Last.hid, aux.infrag, aux.stuck, Len(aux.seq)>>)
+
 InvC19 == (IsRun => Report("C19", C19(pre, Last))) /\ (IsObs => Report("C19", C19d(Last)))
 InvC20 == IsRun => Report("C20", C20(pre, Last))
 InvC27 == IsRun => Report("C27", C27(pre, Last))
